@@ -401,12 +401,12 @@ func runViaShared(c Case) *h.Result {
 }
 
 func TestC09(t *testing.T) {
-	h.Rule("(reader) byte strings biased to syntax bytes and mutated Lisp text, non-trivial when the text contains a syntax byte ( ) \" # ' ` , | ; \\ ; " +
+	h.Rule("(reader) batches of 1-16 byte strings, each either bytes biased to syntax bytes or 1-12 fragments of Lisp text (numbers in every radix form, #nA #n( #* #\\ #| #. #+ #: #n= #c #p, strings, |symbols|, quotes, commas, dots, broken UTF-8) with 0-3 byte mutations, read by slip.ReadString in a worker process; a batch is non-trivial when a text contains a syntax byte ( ) \" # ' ` , | ; \\ ; " +
 		"(call-0/1/2/n) every exported function of every package x tuples over a fixed pool of 44 representative objects built afresh for every call: " +
 		"0-, 1- and 2-tuples enumerated (2-tuples: a 1/16 slice in quick, all in thorough), 3- to 5-tuples drawn by rapid; macros also with the raw (unquoted) objects as forms; " +
 		"each call is evaluated as a form (FuncInfo.Create + Eval) in a worker process with stdin closed and a scratch cwd; non-trivial when some argument is outside the documented parameter type or beyond the documented parameters; distinct by (function, mode, argument tuple); " +
-		"(format) control strings over the directive alphabet incl. unbalanced and hostile ones x pool arguments, non-trivial with >= 1 directive that has a prefix parameter. " +
-		"Oracle: outcome is a value, a partial read, or a condition of a registered class whose original Go panic was raised by slip itself; a fault is a Go panic raised by the runtime (nil dereference, index, type assertion, unhashable key, ...) or by a library argument check, " +
+		"(format) control strings over the directive alphabet incl. unbalanced and hostile ones (prefix parameters <= 10000, every ~{ with a repetition limit) x pool arguments, non-trivial with >= 1 directive that has a prefix parameter. " +
+		"Oracle: the outcome is a value, a partial read, or a condition of a registered class; it is a fault when the panic is a Go runtime error (nil dereference, index, slice bounds, type assertion, unhashable key, nil map, closed channel, makeslice, divide), a Go value that is not a Lisp object, an argument check of a library below slip, " +
 		"the death of the worker, heap growth beyond 1 GiB, or no answer within 60 heart beats of a fresh solo worker.")
 	h.Assume("the Go stack taken in the outermost recover still shows the frames of the original panic (recovered and re-raised panics stay on the stack)")
 	h.Assume("functions on the committed deny list (terminate, block by design, terminal, servers/sockets/programs, environment, interpreter globals) are not driven")
